@@ -1,7 +1,7 @@
 """Property registry: which arms decide which property, tiers, and evidence metadata."""
 from types import SimpleNamespace as NS
 
-from .checks import c19a
+from .checks import c19a, c15
 
 REAL_COMMON = ['all of elementpath (imported from /repo working tree)', 'CPython re/decimal/json/expat',
                'lxml', 'xmlschema', 'stdlib locale.setlocale/getlocale/normalize (Python level)']
@@ -31,4 +31,19 @@ register(
     REAL=REAL_COMMON, STUB=STUB_COMMON,
     EXPECTED_PROBES=['fault:setlocale-error', 'lock-contended'],
     ASSUMPTIONS=['locale orderings are those of the stub, not glibc', 'pre-emption granularity is a Python line'],
+)
+
+register(
+    ID='C15', LEVEL='exploration',
+    ARMS=[(c15, 1.0)],
+    TIERS={'quick': {'runs': 3000, 'wall_cap': 100, 'minimise_budget': 30},
+           'thorough': {'runs': 60000, 'wall_cap': 800, 'minimise_budget': 90}},
+    RULE='each run = one seeded history (3-40 operations) of map:*/array:* functions, constructors and lookups '
+         'over a pool of at most 10 aliasing map/array values (results re-enter the pool as the same objects); '
+         'after every operation the result is compared with a persistent reference model and every pool member is '
+         're-observed; non-trivial = at least 3 operations and 2 pool members; distinct = distinct operation-name sequence',
+    REAL=REAL_COMMON, STUB=['none needed: the simulated dimension is the operation history and aliasing'],
+    EXPECTED_PROBES=[],
+    ASSUMPTIONS=['same-key relation of the model: numeric by exact value (NaN=NaN), string/anyURI/untypedAtomic by '
+                 'code points, other types by type+value; map keys are compared by same-key class, not representation'],
 )
